@@ -135,9 +135,11 @@ impl FixtureDatabase {
                     .collect();
                 elements.join(", ")
             }
-            Expr::Constant(constant) => {
-                format!("{:?}", constant.value)
-            }
+            Expr::Constant(constant) => match &constant.value {
+                // String forward reference (`-> "Database"`): the annotation is the string's content
+                rustpython_parser::ast::Constant::Str(s) => s.to_string(),
+                other => format!("{:?}", other),
+            },
             Expr::BinOp(binop) if matches!(binop.op, rustpython_parser::ast::Operator::BitOr) => {
                 format!(
                     "{} | {}",
